@@ -116,8 +116,9 @@ def remove_string_escapes(value: str) -> str:
         - https://github.com/openapi-generators/openapi-python-client/security/advisories/GHSA-9x4c-63pf-525f
     """
     value = value.replace("\\", r"\\").replace('"', r"\"").replace("\n", r"\n").replace("\r", r"\r")
-    # The other characters `str.splitlines` (and so Jinja's `indent` filter) treats as line breaks would split the literal
-    for char in "\x0b\x0c\x1c\x1d\x1e\x85\u2028\u2029":
+    # The other characters `str.splitlines` (and so Jinja's `indent` filter) treats as line breaks would split the literal,
+    # a NUL makes the whole file unreadable and TOML allows no control character in a string
+    for char in (*map(chr, range(0x09)), *map(chr, range(0x0B, 0x20)), "\x7f", "\x85", "\u2028", "\u2029"):
         value = value.replace(char, f"\\u{ord(char):04x}")
     return value
 
